@@ -20,4 +20,7 @@ Profiles2 == {P2}
 \* the TxHeight window edges: a window transaction and an ordinary one as filler
 PH == <<A("txh", 2), A("none", 0)>>
 ProfilesH == {PH}
+\* the cache rebuild (LO = 2, HI = 1): a window transaction valid at heights 1..4 and two fillers
+PR == <<A("txh", 3), A("none", 0), A("none", 0)>>
+ProfilesR == {PR}
 =============================================================================
